@@ -549,6 +549,31 @@ theorem engMMVV_safe (st : St) (op : String) (a b : Dense)
   intro i hi
   exact ⟨_, _, cell_some_cellD (hA.has i hi), cell_some_cellD (hB.has i hi), hv i hi⟩
 
+/-- **Scalar on the left of an operand that needs an iterator** (`MinBetween(s, t)`, `MaxBetween(s, t)`; finding F31,
+    repaired: the result is walked with its own iterator, not with the operand's): the call returns a fresh tensor `r` of
+    `t`'s element type, shape and data order which holds, at the `k`-th offset of its own iterator, `op t[j] s` for the
+    `k`-th offset `j` of `t`'s iterator (the kernel's form `if s < t[j] { … }`); every pre-existing buffer is unchanged. -/
+theorem engMMScalar_scalar_left_iter (st : St) (op : String) (t : Dense) (sc : ScalarArg)
+    (hord : t.dt ∈ ordTypes) (hdt : t.dt = sc.dt) (hsrc : sc.src = none) (hit : t.requiresIterator = true) (hnsc : isScalar t.shape = false)
+    (hs1 : sc.win.len = 1) (hmt : t.mask = none) (hl1 : denseLen t.shape ≠ 1) (hct : t.win.len ≤ t.win.cap)
+    (hor : ∀ i ∈ (freshOf st t.dt t.shape t.ap.o.col).offsets, 0 ≤ i ∧ i < (denseLen t.shape : Int))
+    (hot : ∀ j ∈ t.offsets, 0 ≤ j ∧ j < (t.win.len : Int))
+    (hnd : (freshOf st t.dt t.shape t.ap.o.col).offsets.Nodup)
+    (hT : InBuf st t.win.buf t.win.off t.win.len) (hS : InBuf st sc.win.buf sc.win.off 1) :
+    ∃ out r s, engMMScalar st op t sc false {} = .ok out ∧ out.ret = .fresh r ∧ out.reuse = none ∧
+      r.dt = t.dt ∧ r.ap.shape = t.shape ∧ r.ap.o.col = t.ap.o.col ∧ r.win.buf = st.heap.size ∧ r.win.off = 0 ∧
+      cell st sc.win.buf sc.win.off = some s ∧ out.st.mheap = st.mheap ∧
+      (∀ (k : Nat) m j, r.offsets[k]? = some m → t.offsets[k]? = some j →
+        ∃ x, cell st t.win.buf (t.win.off + j.toNat) = some x ∧
+          cell out.st r.win.buf m.toNat = some (.app2 op x s)) ∧
+      (∀ b' k, b' < st.heap.size → cell out.st b' k = cell st b' k) := by
+  obtain ⟨st', h, hm, hv, hfr⟩ := engMMScalar_iter_left' st op t sc (by simpa using hord) hdt hsrc hit hnsc hs1 hmt
+    hl1 hct hor hot hnd hT hS
+  refine ⟨_, _, _, h, rfl, rfl, rfl, rfl, rfl, rfl, rfl, cell_some_cellD (by simpa using hS.has 0 (by omega)), hm, ?_, hfr⟩
+  intro k m j hk hj
+  have hjr := hot j (List.mem_of_getElem? hj)
+  exact ⟨_, cell_some_cellD (hT.has.at hjr.1 hjr.2), hv k m j hk hj⟩
+
 /-! ## non-vacuity: every hypothesis set above is satisfied by a small concrete state -/
 namespace Ex
 
@@ -629,6 +654,16 @@ def tbc : Dense := { tb with ap := { tb.ap with strides := calcStridesCol tb.ap.
 example := engMMVV_safe st "minb" tac tbc (by decide) rfl (by decide) (by decide) (by decide) (by decide) rfl (by decide)
   (by decide) inA inB
 example : ∃ out r, engMMVV st "minb" tac tbc {} = .ok out ∧ out.ret = .fresh r ∧ r.ap.o.col = true := ⟨_, _, rfl, rfl, rfl⟩
+-- scalar on the left of a (1,3) view with a gap after every element (finding F31, repaired)
+def st6 : St := { heap := #[#[.src 0 0, .src 0 1, .src 0 2, .src 0 3, .src 0 4, .src 0 5], #[.src 1 0]] }
+def tv : Dense := { ap := { shape := [1, 3], strides := [6, 2], o := { nonContig := true } }, win := ⟨0, 0, 5, 6⟩,
+                    dt := "i8", view := true }
+def scv : ScalarArg := { win := ⟨1, 0, 1, 1⟩, dt := "i8" }
+example := engMMScalar_scalar_left_iter st6 "minb" tv scv (by decide) rfl rfl (by decide) (by decide) rfl rfl
+  (by decide) (by decide) (by decide) (by decide) (by decide) ⟨_, rfl, by decide⟩ ⟨_, rfl, by decide⟩
+example : ∃ out, engMMScalar st6 "minb" tv scv false {} = .ok out ∧
+    cell out.st 2 1 = some (.app2 "minb" (.src 0 2) (.src 1 0)) ∧
+    cell out.st 2 2 = some (.app2 "minb" (.src 0 4) (.src 1 0)) := ⟨_, rfl, rfl, rfl⟩
 end Ex
 
 /-! ## the source of the shape test of `binaryCheck` -/
